@@ -1125,7 +1125,7 @@ pub fn eval_overlap(spec: &GraphSpec, a_cfg: &RunCfg, k: u64) -> (Vec<Violation>
         let mut s = make_stepper(&g, c);
         crate::cases::finish_default(s.as_mut(), false);
         runs += 1;
-        if !s.done() && stuck_other.is_none() {
+        if (!s.done() || matches!(s.ret(), Some(Ret::Deadlock) | Some(Ret::Livelock))) && stuck_other.is_none() {
             // a clean run of functions that complete at once finishes on its own; if it
             // cannot while A is suspended, A's presence is what stops it
             stuck_other = Some(format!("other run #{i} ({}, reverse={}) did not finish while run A ({}) was suspended after its first poll: trace so far has {} events", c.api.name(), c.rev, a_cfg.api.name(), s.trace().len()));
